@@ -25,22 +25,6 @@
 (* config can be shown non-vacuous.                                            *)
 EXTENDS YarnExpr
 
-CONSTANT Bug    \* record of BOOLEAN switches, see NoBugs
-
-NoBugs == [stopKeepsStack |-> FALSE, staleChoiceAfterEnd |-> FALSE,
-           restoreKeepsWaiting |-> FALSE, visitOnEntry |-> FALSE,
-           secondClauseAlsoRuns |-> FALSE, jumpKeepsStack |-> FALSE,
-           pendingPollReruns |-> FALSE, failedSetWrites |-> FALSE]
-
-Bug_stopKeepsStack == [NoBugs EXCEPT !.stopKeepsStack = TRUE]
-Bug_staleChoiceAfterEnd == [NoBugs EXCEPT !.staleChoiceAfterEnd = TRUE]
-Bug_restoreKeepsWaiting == [NoBugs EXCEPT !.restoreKeepsWaiting = TRUE]
-Bug_visitOnEntry == [NoBugs EXCEPT !.visitOnEntry = TRUE]
-Bug_secondClauseAlsoRuns == [NoBugs EXCEPT !.secondClauseAlsoRuns = TRUE]
-Bug_jumpKeepsStack == [NoBugs EXCEPT !.jumpKeepsStack = TRUE]
-Bug_pendingPollReruns == [NoBugs EXCEPT !.pendingPollReruns = TRUE]
-Bug_failedSetWrites == [NoBugs EXCEPT !.failedSetWrites = TRUE]
-
 Range(f) == {f[i] : i \in DOMAIN f}
 Last(q) == q[Len(q)]
 ButLast(q) == SubSeq(q, 1, Len(q) - 1)
